@@ -9,6 +9,10 @@ score is compared
       (ctx.coq_failing), together with the code-side formulas (MEI tick duration, inferred
       ppq, kern reciprocal durations, kern pitch letters).
 Export direction: parts built from abstract documents -> save_mei / save_kern -> reload.
+Re-export direction: document -> load_score -> save_mei / save_kern of every loaded part -> reload.
+Further streams evaluated in Coq: the MEI traversal in ticks (Model/C19_mei.v), the kern timeline placement with the
+shared line table (Model/C19_kern.v part 3), single kern tokens probed through load_kern and tokens written by
+save_kern (Model/C19_kern.v parts 1, 2), dispatch by extension on generated file names (Model/C19_disp.v).
 """
 import json
 import math
@@ -76,6 +80,7 @@ def denote(doc):
     mends = []
     meters = [(F(0), meter)]
     keys = [(F(0), key)]
+    clefs_ = [[(F(0), tuple(st_["clef"]))] for st_ in doc["staves"]]
     for mi, m in enumerate(doc["measures"]):
         if m.get("meter"):
             meter = tuple(m["meter"])
@@ -83,6 +88,8 @@ def denote(doc):
         if m.get("key"):
             key = tuple(m["key"])
             keys.append((pos, key))
+        for c_ in m.get("clefs", []):
+            clefs_[c_[0]].append((pos, (c_[1], c_[2])))
         mstarts.append(pos)
         end = pos
         sends = []
@@ -101,7 +108,7 @@ def denote(doc):
             end = max(end, send)
         mends.append(sends)
         pos = end
-    return {"layers": lay, "mstarts": mstarts, "mends": mends, "meters": meters, "keys": keys, "end": pos}
+    return {"layers": lay, "mstarts": mstarts, "mends": mends, "meters": meters, "keys": keys, "clefs": clefs_, "end": pos}
 
 
 def joined(events):
@@ -134,7 +141,7 @@ DEFAULT_W = {
     "tuplet": 0.25, "dots": 0.3, "chord": 0.2, "rest": 0.15, "tie": 0.15, "grace": 0.06, "beam": 0.3,
     "mrest": 0.1, "space": 0.08, "two_layers": 0.35, "meter_change": 0.15, "key_change": 0.15,
     "repeat": 0.15, "ending": 0.1, "pickup": 0.15, "short_layer": 0.1, "small": 0.35, "inner_dots": 0.3,
-    "alter": 0.4, "explicit_natural": 0.15, "kern_chord_tie": 0.02,
+    "alter": 0.4, "explicit_natural": 0.15, "kern_chord_tie": 0.02, "clef_change": 0.06, "inner_section": 0.25, "sb": 0.15, "mid_split": 0.35,
 }
 METERS = [(4, 4), (3, 4), (2, 4), (6, 8), (3, 8), (2, 2), (5, 4), (5, 8), (9, 8), (3, 2), (7, 8), (3, 16), (12, 8)]
 
@@ -345,7 +352,10 @@ def gen_doc(rng, fmt, w=None, nmeas=None, nstaves=None):
     for mi in range(nme):
         m = {"content": []}
         if mi > 0 and rng.random() < w["meter_change"]:
-            meter = rng.choice(METERS)
+            # a change of meter usually changes the length of the measure (what a measure rest lasts); one time in five
+            # any meter is drawn (same meter again, or another one with the same length: 3/4 -> 6/8)
+            cands = [x for x in METERS if F(4 * x[0], x[1]) != F(4 * meter[0], meter[1])] if rng.random() < 0.8 else METERS
+            meter = rng.choice(cands)
             m["meter"] = list(meter)
         if mi > 0 and rng.random() < w["key_change"]:
             key = [rng.randint(-7, 7), key[1]]
@@ -364,6 +374,12 @@ def gen_doc(rng, fmt, w=None, nmeas=None, nstaves=None):
         if fmt == "mei" and mi > 0 and rng.random() < w["ending"]:
             m["ending"] = 1 if in_ending is None else in_ending + 1
             in_ending = m["ending"]
+        if mi > 0:
+            ch = [[s_, c_[0], c_[1]] for s_ in range(nst) for c_ in [rng.choice(clefs)] if rng.random() < w["clef_change"]]
+            if ch:
+                m["clefs"] = ch       # clef change at the start of the measure: [staff index, shape, line]
+        if fmt == "mei" and mi > 0 and rng.random() < w["sb"]:
+            m["sb"] = True            # <sb/> (system break) before the measure
         for s in range(nst):
             layers = []
             if w.get("uniform_layers"):
@@ -386,10 +402,38 @@ def gen_doc(rng, fmt, w=None, nmeas=None, nstaves=None):
                     if fmt == "mei":
                         nodes = add_beams(rng, w, nodes)
                 layers.append(nodes)
+            if fmt == "kern" and len(layers) == 2 and rng.random() < w.get("mid_split", 0.0):
+                # the second sub-spine exists only from t0 to t1 inside the measure: split "*^" and merge "*v" in the middle of the
+                # measure, at times where the first sub-spine has a token (its previous token ends there)
+                t_, ons = F(0), []
+                for e in flat(layers[0]):
+                    if not e.get("g"):
+                        ons.append(t_)
+                    t_ += ev_dur(e, meter)
+                ons = [x for x in ons if x.denominator in (1, 2, 4, 8, 16)]      # times a plain value can start at
+                starts = [x for x in ons if x > 0]
+                if starts:
+                    t0 = rng.choice(starts)
+                    ends = [x for x in ons if x > t0] + [length] * 2
+                    t1 = rng.choice(ends)
+
+                    def gap(g):
+                        return {"tuplet": [g.denominator, g.numerator], "items": [{"k": "s", "v": 4, "d": 0}], "gap": True}
+                    mid = add_graces(rng, w, fill_layer(rng, w, t1 - t0, fmt, meter), fmt)
+                    layers[1] = [gap(t0)] + mid + ([gap(length - t1)] if t1 < length else [])
             m["content"].append(layers)
         doc["measures"].append(m)
     if rpt_open:
         doc["measures"][-1]["right"] = "rptend"
+    if fmt == "mei" and nme > 1 and rng.random() < w["inner_section"]:
+        # a nested <section> around a run of measures that holds no ending
+        free = [i for i in range(nme) if not doc["measures"][i].get("ending")]
+        if free:
+            a_ = rng.choice(free)
+            b_ = a_
+            while b_ + 1 < nme and not doc["measures"][b_ + 1].get("ending") and rng.random() < 0.6:
+                b_ += 1
+            o["inner_section"] = [a_, b_]
     add_ties(rng, w, doc)
     return doc
 
@@ -599,7 +643,9 @@ def write_mei(doc):
             lays = []
             for li, layer in enumerate(m["content"][si]):
                 la = ' n="%d"' % layer_voice(doc, li) if o["layer_n"] else ""
-                lays.append('<layer xml:id="%s"%s>%s</layer>' % (nid("l"), la, nodes_xml(layer, si, li, None)))
+                cl = "".join('<clef xml:id="%s" shape="%s" line="%d"/>' % (nid("cl"), c_[1], c_[2])
+                             for c_ in m.get("clefs", []) if c_[0] == si and li == 0)
+                lays.append('<layer xml:id="%s"%s>%s%s</layer>' % (nid("l"), la, cl, nodes_xml(layer, si, li, None)))
             body.append('<staff xml:id="%s" n="%d">%s</staff>' % (nid("s"), st["n"], "".join(lays)))
         meas_xml.append((m, pre, a, body))
 
@@ -625,8 +671,15 @@ def write_mei(doc):
         elif not m.get("ending") and open_ending is not None:
             L.append("</ending>")
             open_ending = None
+        inner = o.get("inner_section")
+        if inner and mi == inner[0]:
+            L.append('<section xml:id="%s">' % nid("sec"))
+        if m.get("sb"):
+            L.append('<sb xml:id="%s"/>' % nid("sb"))
         L += pre
         L.append('<measure xml:id="%s"%s>%s%s</measure>' % (nid("m"), a, "".join(body), "".join(ties)))
+        if inner and mi == inner[1]:
+            L.append('</section>')
     if open_ending is not None:
         L.append("</ending>")
     L.append('</section></score></mdiv></body></music></mei>')
@@ -713,7 +766,23 @@ def write_kern(doc):
     width = [1] * nst  # current number of sub-spines per spine
     tie_state = {}
     for mi, m in enumerate(doc["measures"]):
-        want = [len(m["content"][s]) for s in range(nst)]
+        if m.get("meter"):
+            meter = tuple(m["meter"])
+        # timeline of the measure; a second layer with leading / trailing spaces is a sub-spine that exists only from
+        # t0 to t1 (split "*^" and merge "*v *v" in the middle of the measure)
+        cols = {}
+        exist = {}
+        for s in range(nst):
+            for li, layer in enumerate(m["content"][s]):
+                t = F(0)
+                evs = []
+                for e in flat(layer):
+                    evs.append((t, e))
+                    t += ev_dur(e, meter)
+                real = [(tt, e) for tt, e in evs if e["k"] != "s"]
+                cols[(s, li)] = real
+                exist[(s, li)] = (real[0][0], real[-1][0] + ev_dur(real[-1][1], meter), t) if real else (F(0), F(0), t)
+        want = [1 + (1 if (len(m["content"][s]) > 1 and exist[(s, 1)][0] == 0 and cols[(s, 1)]) else 0) for s in range(nst)]
         # barline (the first measure gets one unless it is a pickup)
         if not (mi == 0 and m.get("pickup")):
             bar = "="
@@ -732,36 +801,39 @@ def write_kern(doc):
             row(sum([["*^"] if want[s] > width[s] else ["*"] * width[s] for s in range(nst)], []))
         width = list(want)
         ncol = sum(width)
+        if m.get("clefs"):
+            chg = {c_[0]: c_ for c_ in m["clefs"]}
+            row(sum([["*clef%s%d" % (chg[s][1], chg[s][2]) if s in chg else "*"] * width[s] for s in range(nst)], []))
         if m.get("meter"):
-            meter = tuple(m["meter"])
             row(["*M%d/%d" % meter] * ncol)
         if m.get("key"):
             row([kern_key(m["key"][0])] * ncol)
-        # timeline of the measure
-        cols = []
-        for s in range(nst):
-            for li, layer in enumerate(m["content"][s]):
-                t = F(0)
-                evs = []
-                for e in flat(layer):
-                    evs.append((t, e))
-                    t += ev_dur(e, meter)
-                cols.append(((s, li), evs))
-        times = sorted({t for _, evs in cols for t, _ in evs})
+        times = sorted({t for evs in cols.values() for t, _ in evs})
         for t in times:
+            # sub-spines that end / begin at this time inside the measure
+            for s0 in range(nst):
+                if width[s0] == 2 and exist[(s0, 1)][1] <= t:
+                    row(sum([["*v", "*v"] if s == s0 else ["*"] * width[s] for s in range(nst)], []))
+                    width[s0] = 1
+            spl = [s for s in range(nst) if width[s] == 1 and len(m["content"][s]) > 1 and cols[(s, 1)] and exist[(s, 1)][0] == t and t > 0]
+            if spl:
+                row(sum([["*^"] if s in spl else ["*"] * width[s] for s in range(nst)], []))
+                for s in spl:
+                    width[s] = 2
+            live = [(s, li) for s in range(nst) for li in range(width[s])]
             # grace notes first, on their own line(s)
-            graces = [[e for tt, e in evs if tt == t and e.get("g")] for _, evs in cols]
+            graces = [[e for tt, e in cols.get(key, []) if tt == t and e.get("g")] for key in live]
             for k in range(max(len(g) for g in graces)):
                 row([kern_token(g[k], None, o) if k < len(g) else "." for g in graces])
             cells = []
-            for (key, evs) in cols:
-                main = [e for tt, e in evs if tt == t and not e.get("g")]
+            for key in live:
+                main = [e for tt, e in cols.get(key, []) if tt == t and not e.get("g")]
                 if not main:
                     cells.append(".")
                     continue
-                e = main[0]
-                cells.append(kern_token(e, tie_state.setdefault(key, [False]), o))
-            row(cells)
+                cells.append(kern_token(main[0], tie_state.setdefault(key, [False]), o))
+            if any(c != "." for c in cells):
+                row(cells)
     if o["final_barline"]:
         row(["=="] * sum(width))
     for s0 in range(nst):
@@ -822,7 +894,9 @@ def observe_part(part):
             "kind": kind, "start": int(n.start.t), "end": int(n.end.t), "voice": n.voice, "staff": n.staff,
             "step": getattr(n, "step", None), "alter": getattr(n, "alter", None), "octave": getattr(n, "octave", None),
             "tp": getattr(n, "tie_prev", None) is not None, "tn": getattr(n, "tie_next", None) is not None,
-            "dur_tied": int(n.duration_tied) if kind != "r" else None})
+            "dur_tied": int(n.duration_tied) if kind != "r" else None,
+            "sym": dict(n.symbolic_duration) if isinstance(getattr(n, "symbolic_duration", None), dict) else None,
+            "id": n.id})
     for m in part.iter_all(S.Measure):
         ob["measures"].append([int(m.start.t), int(m.end.t) if m.end is not None else None, m.number])
     for t in part.iter_all(S.TimeSignature):
@@ -899,6 +973,88 @@ def kern_spine_tokens(text, nst):
     return out
 
 
+def kern_columns(text, nst):
+    """Independent reading of a written kern document as the columns element_parsing meets: per spine, per sub-spine
+    (voice) the cells [(document line, text)] -- a sub-spine that does not exist on a line holds nothing there, except
+    that tandem interpretations and barlines of the spine's first sub-spine are copied to all its sub-spines
+    (parse_by_voice); null tokens are dropped (SplineParser.parse); the '**kern' line is the header."""
+    rows = []
+    width = [1] * nst
+    maxw = [1] * nst
+    for ln, line in enumerate(text.split("\n")):
+        if not line or line.startswith("!"):
+            continue
+        cells = line.split("\t")
+        k = 0
+        per = []
+        for s_ in range(nst):
+            mine = cells[k:k + width[s_]]
+            k += width[s_]
+            per.append(mine)
+            w2 = width[s_] + mine.count("*^")
+            run = 0
+            for c in mine + [None]:
+                if c == "*v":
+                    run += 1
+                else:
+                    if run:
+                        w2 -= run - 1
+                    run = 0
+            width[s_] = w2
+            maxw[s_] = max(maxw[s_], w2)
+        rows.append((ln, per))
+    cols = [[[] for _ in range(maxw[s_])] for s_ in range(nst)]
+    for ln, per in rows:
+        if ln == 0:
+            continue
+        for s_ in range(nst):
+            mine = per[s_]
+            for v in range(maxw[s_]):
+                c = mine[v] if v < len(mine) else ""
+                if v >= 1 and (mine[0].startswith("*") or mine[0].startswith("=")):
+                    c = mine[0]
+                if c not in ("", ".", "-"):
+                    cols[s_][v].append((ln, c))
+    return cols
+
+
+def c_kcell(c):
+    import re
+    if "*^" in c:
+        return "KSplit"
+    if "*" in c:
+        return "KTandem"
+    if "=" in c:
+        return "KBar"
+    if "q" in c:
+        return "KGrace"
+    m = re.search(r"(\d+)(\.*)", c.split(" ")[0])
+    return "(KNote %s %d%%nat)" % (cq(F(int(m.group(1)))), len(m.group(2)))
+
+
+def c_partrun_cases(doc, obs, text):
+    """One case per loaded part: (divs, columns, per column the loaded (line, start, end) of its elements, measure starts)."""
+    nst = len(doc["staves"])
+    cols = kern_columns(text, nst)
+    per_spine = []
+    for si in range(nst):
+        ob = obs[si]
+        cc, oo = [], []
+        for v, col in enumerate(cols[si]):
+            cc.append(ctuple([cbool(v > 0), clist([ctuple([cz(ln), c_kcell(c)]) for ln, c in col])]))
+            note_lines = [ln for ln, c in col if "*" not in c and "=" not in c]
+            els = sorted({(n["start"], 0 if n["kind"] == "g" else 1, n["end"]) for n in ob["notes"] if n["voice"] == v + 1})
+            rows = [ctuple([cz(ln), cz(a), cz(b)]) for ln, (a, _, b) in zip(note_lines, els)]
+            if len(note_lines) != len(els):
+                rows.append(ctuple([cz(-1), cz(len(note_lines)), cz(len(els))]))   # different counts: cannot agree
+            oo.append(clist(rows))
+        mst = clist([cz(x) for x in sorted(m[0] for m in ob["measures"] if m[2] != 0)])
+        per_spine.append((cz(ob["divs"][0]), cc, oo, mst))
+    if doc["opts"].get("same_part"):
+        return [ctuple([per_spine[0][0], clist(sum((p[1] for p in per_spine), [])), clist(sum((p[2] for p in per_spine), [])), per_spine[0][3]])]
+    return [ctuple([p[0], clist(p[1]), clist(p[2]), p[3]]) for p in per_spine]
+
+
 def a0(x):
     return 0 if x is None else int(x)
 
@@ -972,6 +1128,16 @@ def compare(doc, obs):
             bad.append((clause, "staff %d (divs %d): %d expected / %d loaded elements; first difference at sorted index %d: expected %s, loaded %s"
                         % (si, dv, len(exp), len(got), k, fmt_row(e_), fmt_row(g_))))
             continue
+        # the written value the loaded note carries (symbolic_duration: what both writers export) denotes its duration
+        for n in ob["notes"]:
+            if n["kind"] != "n":
+                continue
+            q = sym_quarters(n.get("sym"))
+            if q != F(n["end"] - n["start"], dv):
+                bad.append(("symbolic", "staff %d: note %s%s%s (voice %s) at quarter %s lasts %s quarters but carries the written value %r (= %s quarters)"
+                            % (si, n["step"], {None: "", 0: "n"}.get(n["alter"], "%+d" % (n["alter"] or 0)), n["octave"], n["voice"],
+                               F(n["start"], dv), F(n["end"] - n["start"], dv), n.get("sym"), q)))
+                break
         # ties joined: chain heads with the summed duration (objects), and the note array rows
         expj = []
         for li in range(2):
@@ -1020,7 +1186,34 @@ def compare(doc, obs):
         st = doc["staves"][si]
         if (st["n"], st["clef"][0], st["clef"][1]) not in c0:
             bad.append(("clef", "staff %d: clef at 0 is %s, declared %s" % (si, c0, (st["n"], st["clef"]))))
+        elif len(den["clefs"][si]) > 1:
+            mine = sorted([(F(c[0], dv), k_, (c[2], c[3])) for k_, c in enumerate(ob["clefs"]) if c[1] == st["n"]])
+            for mi_, T in enumerate(den["mstarts"]):
+                if mi_ + 1 < len(den["mstarts"]) and den["mstarts"][mi_ + 1] == T:
+                    continue      # a measure without length: what is in force "at" it is decided by the next one
+                e_ = [v for t, v in den["clefs"][si] if t <= T][-1]
+                g_ = [v for t, _, v in mine if t <= T]
+                if not g_ or tuple(g_[-1]) != tuple(e_):
+                    bad.append(("clef", "staff %d: clef in force at quarter %s is %s, declared %s" % (si, T, g_[-1] if g_ else None, e_)))
+                    break
     return bad
+
+
+SYM_VALUE = {"long": F(1, 4), "breve": F(1, 2), "whole": 1, "half": 2, "quarter": 4, "eighth": 8, "16th": 16, "32nd": 32, "64th": 64,
+             "128th": 128, "256th": 256}
+
+
+def sym_quarters(sd):
+    """Quarters a symbolic duration {type, dots, actual_notes, normal_notes} denotes (None when it denotes nothing)."""
+    if not sd or sd.get("type") not in SYM_VALUE:
+        return None
+    q = F(4) / SYM_VALUE[sd["type"]] * (2 - F(1, 2 ** int(sd.get("dots") or 0)))
+    a, b = sd.get("actual_notes"), sd.get("normal_notes")
+    if a is not None or b is not None:
+        if not a or not b:
+            return None
+        q = q * F(int(b), int(a))
+    return q
 
 
 def fmt_row(r):
@@ -1048,7 +1241,8 @@ def fmt_any(x):
 SYM = {1: "whole", 2: "half", 4: "quarter", 8: "eighth", 16: "16th", 32: "32nd", 64: "64th", 128: "128th", 256: "256th"}
 
 EXPORT_W = {"space": 0.0, "mrest": 0.0, "short_layer": 0.0, "grace": 0.0, "pickup": 0.2, "meter_change": 0.0,
-            "key_change": 0.0, "repeat": 0.0, "ending": 0.0, "explicit_natural": 0.1, "uniform_layers": 1, "tie": 0.2}
+            "key_change": 0.0, "repeat": 0.0, "ending": 0.0, "explicit_natural": 0.1, "uniform_layers": 1, "tie": 0.2, "clef_change": 0.0,
+            "inner_section": 0.0, "sb": 0.0, "mid_split": 0.0}
 
 PLAIN = {}
 for _v in (1, 2, 4, 8, 16, 32, 64):
@@ -1456,6 +1650,72 @@ def export_roundtrip(doc, fmt, want_obs=False):
     return ("ok", rows, got, text, (len(sc.parts), obs, vmap))
 
 
+REEXPORT_W = {"space": 0.0, "mrest": 0.0, "short_layer": 0.0, "uniform_layers": 1, "ending": 0.0, "clef_change": 0.0, "mid_split": 0.0, "tuplet": 0.35,
+              "dots": 0.3,
+              "meter_change": 0.15, "key_change": 0.15, "small": 0.5}
+
+
+def reexport_roundtrip(doc, name="reexp"):
+    """Abstract document -> file (this module's writer) -> load_score -> every loaded part through save_mei / save_kern
+    -> load_score.  Returns ('err', text) or ('ok', [(part index, expected rows {id: row}, reloaded rows, exported text)]):
+    the part a loader returns is a part the writers must be able to export (rows as in export_roundtrip)."""
+    import partitura as pt
+    import partitura.score as S
+    fmt = doc["fmt"]
+    path, text = write_doc(doc, name)
+    out = []
+    stage = "load"
+    try:
+        sc = pt.load_score(path)
+        for pi, part in enumerate(sc.parts):
+            dv = int(part._quarter_durations[0])
+            rows = {}
+            for k, n in enumerate(part.iter_all(S.Note, include_subclasses=True)):
+                rows[n.id if (fmt == "mei" and n.id) else "x%d" % k] = (
+                    F(int(n.start.t), dv), F(int(n.end.t - n.start.t), dv), n.step.upper(), a0(n.alter), n.octave, n.staff)
+            p2 = os.path.join(work_dir(), "%s_part%d.%s" % (name, pi, "mei" if fmt == "mei" else "krn"))
+            stage = "save"
+            if fmt == "mei":
+                pt.save_mei(part, p2)
+            else:
+                from partitura.io.exportkern import save_kern
+                save_kern(part, p2)
+            stage = "reload"
+            sc2 = pt.load_score(p2)
+            got = []
+            for q in sc2.parts:
+                dv2 = int(q._quarter_durations[0])
+                for n in q.iter_all(S.Note, include_subclasses=True):
+                    got.append((n.id, F(int(n.start.t), dv2), F(int(n.end.t - n.start.t), dv2), n.step.upper(), a0(n.alter), n.octave, n.staff))
+            with open(p2) as f:
+                out.append((pi, rows, got, f.read()))
+            stage = "load"
+    except Exception as ex:
+        import traceback
+        tb = traceback.extract_tb(ex.__traceback__)
+        return ("err", "%s of the loaded part raised %s: %s @ %s:%d %s" % (stage, type(ex).__name__, str(ex)[:200], os.path.basename(tb[-1].filename),
+                                                                          tb[-1].lineno, tb[-1].name))
+    return ("ok", out)
+
+
+def reexport_bad(doc, name="reexp"):
+    """First difference of the re-export round trip: None | (what, detail dict)."""
+    r = reexport_roundtrip(doc, name)
+    if r[0] == "err":
+        return ("a %s document loaded by load_score could not be exported and re-loaded: %s" % (doc["fmt"], r[1]), {"error": r[1], "clauses": ["error"]})
+    for pi, rows, got, text in r[1]:
+        fmt = doc["fmt"] if (doc["fmt"] == "mei" and all(not k.startswith("x") for k in rows)) else "kern"
+        bad = export_diff(fmt, rows, got)
+        if bad:
+            i0, e0, g0 = bad[0]
+            return ("%s document -> load_score -> save_%s of part %d -> load_score changed notes [%s]: %d before / %d after, %d differ; first: %s before %s, after %s"
+                    % (doc["fmt"], doc["fmt"], pi, ",".join(diff_clause(bad)), len(rows), len(got), len(bad), "note %s" % i0 if i0 else "",
+                       fmt_xrow(e0), "; ".join(fmt_xrow(x) for x in (g0 or [])) or "none"),
+                    {"clauses": diff_clause(bad), "part": pi, "file": text,
+                     "differences": [[i_, fmt_xrow(e_), [fmt_xrow(x) for x in (g_ or [])]] for i_, e_, g_ in bad[:6]]})
+    return None
+
+
 def export_diff(fmt, rows, got):
     """Direct oracle of the export clause: list of differences (empty = every note kept onset, duration, pitch, staff)."""
     bad = []
@@ -1601,6 +1861,50 @@ def c_case(doc, obs):
     return ctuple([cbool(doc["fmt"] == "mei"), c_doc(doc), c_observed(doc, obs)])
 
 
+def c_meirun_case(doc, obs):
+    """MEI document as the loader's traversal meets it (Model/C19_mei.v): section items in document order (meter /
+    key changes as items, NOT resolved into measure lengths), layers with their @n, elements with @dur.ppq where the
+    file carries it; observed per part: signatures, measure starts and per VOICE NUMBER the (start, end) ticks.
+    Returns None when the parts were given different divisions (the model has one)."""
+    o = doc["opts"]
+    dvs = {ob["divs"][0] for ob in obs}
+    if len(dvs) != 1:
+        return None
+    dv = dvs.pop()
+    ppq = o.get("ppq_value") if o.get("ppq") == "declared" else None
+    items = []
+    for m in doc["measures"]:
+        if m.get("meter"):
+            items.append("(IMeter %s %s)" % (cz(m["meter"][0]), cz(m["meter"][1])))
+        if m.get("key"):
+            items.append("(IKey %s)" % cz(m["key"][0]))
+        staves = []
+        for st in m["content"]:
+            layers = []
+            for li, layer in enumerate(st):
+                n = "(Some %s)" % cz(o["layer_ns"][li]) if o.get("layer_n") else "(@None Z)"
+                els = []
+                for e in flat(layer):
+                    p = "(@None Z)"
+                    if ppq and not e.get("g") and e["k"] != "m":
+                        p = "(Some %s)" % cz(int(ppq * den_dur(e["v"], e.get("d", 0), e.get("t"))))
+                    els.append("(Mel %s %s)" % (c_event(e), p))
+                layers.append(ctuple([n, clist(els)]))
+            staves.append(clist(layers))
+        items.append("(IMeasure %s)" % clist(staves))
+    init = clist([ctuple([cz(doc["meter"][0]), cz(doc["meter"][1]), cz(doc["key"][0])]) for _ in doc["staves"]])
+    parts = []
+    for ob in obs:
+        voices = {}
+        for n in ob["notes"]:
+            voices.setdefault(n["voice"], set()).add((n["start"], 0 if n["kind"] == "g" else 1, n["end"]))
+        vs = clist([ctuple([cz(v), clist([ctuple([cz(a), cz(b)]) for a, _, b in sorted(voices[v])])]) for v in sorted(voices)])
+        parts.append(ctuple([clist([ctuple([cz(t[0]), cz(t[1]), cz(t[2])]) for t in ob["ts"]]),
+                             clist([ctuple([cz(k[0]), cz(k[1])]) for k in ob["ks"]]),
+                             clist([cz(x) for x in sorted(m[0] for m in ob["measures"])]), vs]))
+    return ctuple([cz(dv), init, clist(items), clist(parts)])
+
+
 KERN_ACC_CODE = {None: 0, 1: 1, 2: 2, -1: 3, -2: 4, 0: 5}
 
 
@@ -1613,9 +1917,11 @@ def features(doc):
     f.add("staves:%d" % len(doc["staves"]))
     f.add("measures:%d" % len(doc["measures"]))
     for m in doc["measures"]:
-        for k in ("meter", "key", "left", "right", "ending", "pickup"):
+        for k in ("meter", "key", "left", "right", "ending", "pickup", "sb"):
             if m.get(k):
                 f.add(k if k not in ("meter", "key") else k + "_change")
+        if m.get("clefs"):
+            f.add("clef_change")
         for st in m["content"]:
             if len(st) > 1:
                 f.add("two_layers")
@@ -1635,6 +1941,9 @@ def features(doc):
                         if any(x.get("k") == "c" for x in _walk(nd["items"])):
                             f.add("tuplet>chord")
                 for e in flat(layer):
+                    if e["k"] == "s" and doc["fmt"] == "kern":
+                        f.add("sub_spine_split_or_merged_inside_a_measure")
+                        continue
                     f.add({"n": "note", "c": "chord", "r": "rest", "m": "mrest", "s": "space"}[e["k"]])
                     if e.get("d"):
                         f.add("dots%d" % e["d"])
@@ -1648,9 +1957,44 @@ def features(doc):
                             f.add("chord_tie")
                     if e.get("g"):
                         f.add("grace")
+    # histories: what happened in the same staff before (state the loaders carry from measure to measure)
+    meter = tuple(doc["meter"])
+    seen_mrest = [set() for _ in doc["staves"]]     # measure lengths under which the staff already had a measure rest
+    changed = False
+    for mi, m in enumerate(doc["measures"]):
+        if m.get("meter"):
+            if F(4 * m["meter"][0], m["meter"][1]) != F(4 * meter[0], meter[1]):
+                f.add("meter_change_changes_measure_length")
+                changed = True
+            else:
+                f.add("meter_change_keeps_measure_length")
+            meter = tuple(m["meter"])
+        ln = F(4 * meter[0], meter[1])
+        for si, st in enumerate(m["content"]):
+            if any(e["k"] == "m" for layer in st for e in flat(layer)):
+                if changed:
+                    f.add("mrest_after_meter_change")
+                if seen_mrest[si] - {ln}:
+                    f.add("mrests_under_meters_of_different_length_in_one_staff")
+                seen_mrest[si].add(ln)
+            if mi > 0 and len(st) != len(doc["measures"][mi - 1]["content"][si]):
+                f.add("number_of_layers_changes_between_measures")
+            for layer in st:
+                fl = flat(layer)
+                if fl and fl[0].get("g"):
+                    f.add("grace_first_in_measure")
+        for si, st in enumerate(m["content"]):
+            for layer in st:
+                fl = [e for e in flat(layer) if e["k"] in ("n", "c") and not e.get("g")]
+                if fl and fl[-1].get("tie") and mi + 1 < len(doc["measures"]):
+                    f.add("tie_across_barline")
     for k, v in doc["opts"].items():
         if isinstance(v, (str, bool)) and k not in ("ext",):
             f.add("%s=%s" % (k, v))
+    if doc["opts"].get("inner_section"):
+        f.add("nested_section")
+        if any(m.get("meter") or m.get("key") for m in doc["measures"][doc["opts"]["inner_section"][0]:doc["opts"]["inner_section"][1] + 1]):
+            f.add("meter_or_key_change_inside_nested_section")
     if doc["fmt"] == "mei" and doc["opts"].get("layer_n") and doc["opts"].get("layer_ns") not in (None, [1, 2]):
         f.add("layer_n_differs_from_position")
     if doc["fmt"] == "kern" and [st["n"] for st in doc["staves"]] != list(range(1, len(doc["staves"]) + 1)):
@@ -1705,26 +2049,54 @@ def split_same_part(doc, ob):
     return out
 
 
-def shrink_import(doc, loader, clauses, fname="shrink"):
+def shrink_import(doc, loader, clauses, fname="shrink", fails=None):
     """ddmin over measures, then staves (kern documents keep whole measures: spines must stay aligned)."""
     import copy
 
-    def fails(d):
+    def fails_import(d):
         try:
             st, _, bad, _ = check_import(d, loader, fname)
         except Exception:
             return False
         return bool(bad) and bool({b[0] for b in bad} & clauses)
+    fails = fails or fails_import
 
-    def with_measures(ms):
+    # meter / key in force in every measure: a dropped measure hands its change on to the next one kept (the first
+    # kept measure's meter / key becomes the document's initial one), so that every kept measure keeps its meaning
+    force = []
+    meter, key = list(doc["meter"]), list(doc["key"])
+    for m in doc["measures"]:
+        meter = list(m["meter"]) if m.get("meter") else meter
+        key = list(m["key"]) if m.get("key") else key
+        force.append((list(meter), list(key)))
+
+    def with_measures(idx):
         d = copy.deepcopy(doc)
-        d["measures"] = copy.deepcopy(ms)
-        # keep meter/key declarations meaningful: a dropped change moves to the document head
+        d["measures"] = []
+        if len(idx) != len(doc["measures"]):
+            d["opts"].pop("inner_section", None)
+        meter = key = None
+        for k_, i in enumerate(idx):
+            m = copy.deepcopy(doc["measures"][i])
+            m.pop("meter", None)
+            m.pop("key", None)
+            fm, fk = force[i]
+            if k_ == 0:
+                d["meter"], d["key"] = list(fm), list(fk)
+                if m.get("pickup") and i != 0:
+                    m.pop("pickup")
+            else:
+                if fm != meter:
+                    m["meter"] = list(fm)
+                if fk != key:
+                    m["key"] = list(fk)
+            meter, key = fm, fk
+            d["measures"].append(m)
         return d
     cur = doc
-    if len(doc["measures"]) > 1 and not any(m.get("meter") or m.get("ending") for m in doc["measures"]):
-        ms = core.ddmin(doc["measures"], lambda sub: fails(with_measures(sub)))
-        cur = with_measures(ms)
+    if len(doc["measures"]) > 1 and not any(m.get("ending") for m in doc["measures"]):
+        idx = core.ddmin(list(range(len(doc["measures"]))), lambda sub: fails(with_measures(sub)))
+        cur = with_measures(idx)
     while len(cur["staves"]) > 1:
         for si in range(len(cur["staves"])):
             d = copy.deepcopy(cur)
@@ -1785,14 +2157,16 @@ def gen():
 
 
 def run(ctx):
-    ctx.rule = ("IMPORT: abstract documents (1-3 staves/spines x 1-2 layers x 1-4 measures; notes, chords, rests, measure rests, spaces, "
+    ctx.rule = ("IMPORT: abstract documents (1-3 staves/spines x 1-2 layers x 1-5 measures; notes, chords, rests, measure rests, spaces, "
                 "beams, tuplets 3:2 5:4 6:4 7:4 incl. dotted values inside tuplets and the nestings tuplet>beam>note, beam>tuplet>note, "
                 "tuplet>chord>note, values whole..64th (128th/256th filler rests), 0-2 dots, ties incl. across barlines and on chords, "
-                "grace notes, meter/key changes, pickups, repeats, endings, meter/key/clef as attributes or children of "
-                "staffDef/scoreDef; kern: spines, *^/*v sub-spines, reciprocal tuplet values, tandem clef/meter/key/staff lines) drawn "
-                "from VERIF_SEED, written by this module's own MEI/kern writers, loaded by load_score/load_mei/load_kern (file names "
-                "with several dots included).  Distinct non-trivial = distinct document text whose document has at least one of: dots, "
-                "tuplet, tie, grace, chord, two layers, >1 staff, meter/key change.  "
+                "grace notes, meter/key/clef changes, pickups, repeats, endings, nested sections, system breaks, meter/key/clef as attributes "
+                "or children of staffDef/scoreDef; kern: spines, *^/*v sub-spines, reciprocal tuplet values, tandem clef/meter/key/staff lines) "
+                "drawn from VERIF_SEED, written by this module's own MEI/kern writers, loaded by load_score/load_mei/load_kern (file names "
+                "with several dots included); 12% of the documents are 'histories' (3-5 measures, meter change 0.55 / key change 0.35 / clef "
+                "change 0.3 per measure, MEI measure rest 0.45 per layer: measure rests before and after a change of measure length in one "
+                "staff).  Distinct non-trivial = distinct document text whose document has at least one of: dots, tuplet, tie, grace, chord, "
+                "two layers, >1 staff, meter/key change.  "
                 "EXPORT: parts built from abstract documents with 1-3 staves, 1-2 voices per staff numbered per staff block / "
                 "consecutively / by a random permutation of 1..max(4, #voices) (so that a voice number may equal the number of another "
                 "staff), notes and individual CHORD MEMBERS placed on another staff (MEI: each element with probability 0/0.15/0.3/0.5 per "
@@ -1802,27 +2176,44 @@ def run(ctx):
                 "staves), grace notes (30% of the MEI parts; 6% of the kern parts -> known finding C19-K3), measure-filling rests, "
                 "pickups, objects added layer by layer / by time / with simultaneous chords of different "
                 "voices interleaved; save_mei / save_kern, load_score; every Note compared on (onset, duration, step, alter, octave, "
-                "staff): MEI id by id (ids survive), kern as a multiset.  Distinct non-trivial export case = distinct exported file with > 1 note.")
+                "staff): MEI id by id (ids survive), kern as a multiset.  Distinct non-trivial export case = distinct exported file with > 1 note.  "
+                "RE-EXPORT: abstract document (gap-free voices, tuplet 0.35, 30% with tuplet 0.55 so that tuplet values precede plain values "
+                "of the same base) -> file -> load_score -> save_mei / save_kern of every loaded part -> load_score, every Note compared as in "
+                "EXPORT; all streams run in one process, no module state is reset between documents.  "
+                "TOKENS: every distinct kern note token of the generated documents (sample) plus tokens drawn from a grammar (decorations, "
+                "reciprocal values of the supported tuplets, 0-3 dots, letters x 1-5, accidentals, pitch before duration, no duration), each "
+                "probed through load_kern in a file of its own; tokens save_kern writes for notes of drawn attributes.  "
+                "DISPATCH: file names drawn from a grammar (0-2 directories with dots / other readers' extensions, hidden names, only dots, "
+                "several dots, upper-case extensions, unknown extensions), the reader observed by its outcome on an MEI and a kern file of "
+                "known content written under the name.")
     ctx.trusted = ["Coq 8.16.1 kernel incl. vm_compute",
                    "harness/props/c19.py: generator, the independent MEI/kern writers, denotation transcription (oracle), observer, "
-                   "the part builder of the export direction and its lxml reading of @staff in exported files",
+                   "the part builder of the export direction and its lxml reading of @staff in exported files, the reading of a written "
+                   "kern document as columns of cells (kern_columns), the token probe and dispatch observers",
                    "lxml / numpy text parsing inside partitura is exercised, not modelled"]
     ctx.assumptions = ["MEI without verovio (the use_verovio path is taken only when verovio imports; it does not here)",
                        "note-array onsets compared relative to the first row (pickup origin convention belongs to C02/C05), f4 tolerance 1e-4",
-                       "kern float arithmetic (isclose/ceil) is modelled in exact rationals; a float artefact would show as a correspondence failure",
+                       "kern float arithmetic (isclose/ceil) is modelled in exact rationals; a float artefact would show as a correspondence failure "
+                       "(token probes use the reciprocal values of the supported tuplets only: others make the loader's float arithmetic inexact)",
                        "a zero-length measure after the final kern barline is ignored",
-                       "export: parts are gap-free per voice and every symbolic duration matches its tick duration (the writers take the "
-                       "written value from symbolic_duration); rests are not compared (the property names notes)"]
+                       "export / re-export: parts are gap-free per voice and every symbolic duration matches its tick duration (the writers take "
+                       "the written value from symbolic_duration); rests are not compared (the property names notes); a re-exported part whose "
+                       "tick positions exceed int32 (huge lcm of kern divisions) is skipped and counted (Part.note_array, not the writers)",
+                       "the clause [symbolic] (a loaded note's symbolic duration denotes its duration) is what 'exporting a part' rests on: "
+                       "both writers take the written value from it",
+                       "dispatch: which of the OTHER readers runs for a name, or none, is not compared (classes 0 and 3 are merged)"]
     register_matchers(ctx)
-    ok, why = ctx.coq_props(expect_min=26)
+    ok, why = ctx.coq_props(expect_min=45)
     quick = ctx.tier == "quick"
-    n_docs = {"mei": 150 if quick else 3000, "kern": 150 if quick else 3000}
-    n_exp = {"mei": 100 if quick else 1500, "kern": 60 if quick else 800}   # save_kern is ~5x slower than save_mei
+    n_docs = {"mei": 110 if quick else 2600, "kern": 110 if quick else 2600}
+    n_exp = {"mei": 70 if quick else 1500, "kern": 30 if quick else 550}   # save_kern is ~5x slower than save_mei
     n_viol = 0
     coq_cases, coq_docs = [], []
     ppq_cases = []
     pitch_cases = {}
     spine_cases, spine_info = [], []
+    run_cases, run_docs = [], []
+    prun_cases, prun_docs = [], []
     corpus = load_corpus()
     for fmt in ("mei", "kern"):
         todo = [d for d in corpus if d["fmt"] == fmt and not d.get("xfmt")]
@@ -1836,6 +2227,13 @@ def run(ctx):
                 w = {"tuplet": 0, "grace": 0, "space": 0, "mrest": 0, "short_layer": 0, "tie": 0.05}
             elif r < 0.35:
                 w = {"tie": 0.5, "grace": 0.15}
+            elif r < 0.47:
+                # history of declarations: several measures, frequent meter / key changes, and (MEI) measure rests before
+                # and after them in the same staff -- what a measure rest lasts is the state the loader carries along
+                w = {"meter_change": 0.55, "key_change": 0.35, "clef_change": 0.3, "mrest": 0.45, "tuplet": 0.1, "two_layers": 0.25, "pickup": 0.1,
+                     "inner_section": 0.5}
+                todo.append(gen_doc(ctx.rng, fmt, w, nmeas=ctx.rng.randint(3, 5), nstaves=ctx.rng.choice([1, 2, 2])))
+                continue
             todo.append(gen_doc(ctx.rng, fmt, w))
         for di, doc in enumerate(todo):
             loader = "load_score" if (di % 4) else ("load_mei" if fmt == "mei" else "load_kern")
@@ -1874,11 +2272,21 @@ def run(ctx):
                 continue
             coq_cases.append(c_case(doc, obs))
             coq_docs.append((doc, loader, text))
+            if fmt == "mei":
+                c_ = c_meirun_case(doc, obs)
+                if c_ is None:
+                    ctx.count("mei:parts_with_different_divisions(not_in_traversal_model)")
+                else:
+                    run_cases.append(c_)
+                    run_docs.append((doc, loader, text))
             if fmt == "mei" and doc["opts"].get("ppq") != "declared":
                 evs = [e for m in doc["measures"] for st_ in m["content"] for layer in st_ for e in flat(layer) if e["k"] != "m"]
                 units = [doc["meter"][1]] + [m["meter"][1] for m in doc["measures"] if m.get("meter")]
                 ppq_cases.append(ctuple([clist([cz(u) for u in units]), clist([c_event(e) for e in evs]), cz(obs[0]["divs"][0])]))
             if fmt == "kern":
+                for c_ in c_partrun_cases(doc, obs, text):
+                    prun_cases.append(c_)
+                    prun_docs.append((doc, loader, text))
                 for si_, lines_ in enumerate(kern_spine_tokens(text, len(doc["staves"]))):
                     nv_ = max([n["voice"] for n in obs[si_]["notes"]] + [0])
                     spine_cases.append(ctuple([clist([clist([cz(c) for c in l_]) for l_ in lines_]), cz(nv_)]))
@@ -1895,7 +2303,7 @@ def run(ctx):
     if ok:
         try:
             failing = ctx.coq_failing("doc", "From PV Require Import Model.C19.", "", coq_cases,
-                                      "fun c => match c with (mei, ms, st) => check_doc mei ms st end", shard=150)
+                                      "fun c => match c with (mei, ms, st) => check_doc mei ms st end", shard=60 if quick else 150)
         except RuntimeError as ex:
             failing = None
             ctx.obligation("correspondence: Model.C19 denotation = loaded score", False, str(ex)[-800:])
@@ -1907,11 +2315,38 @@ def run(ctx):
                 doc, loader, text = coq_docs[i]
                 ctx.violation("Coq model and loaded score disagree on a document the Python oracle accepts (model drift or loader change)",
                               {"dir": "import", "doc": doc, "loader": loader, "clauses": ["model"], "text": text})
+        ctx.log("coq: doc stream done")
+        if run_cases:
+            f5 = ctx.coq_failing("meirun", "From PV Require Import Model.C19 Model.C19_mei.", "", run_cases, "check_mei_run", shard=40 if quick else 100)
+            ctx.obligation("correspondence: Model.C19_mei.mei_load (the loader's traversal in ticks: section items in document order, "
+                           "meter / key changes as state, measure rests from the part's last time signature, position from the order "
+                           "within the layer, measure end = max over layers and parts, voice = layer@n) = ticks of every element per "
+                           "voice number, measure starts, time and key signatures of every part, on %d MEI documents" % len(run_cases),
+                           not f5, f5[:5])
+            for i in f5[:3]:
+                doc, loader, text = run_docs[i]
+                ctx.violation("Coq model of the MEI traversal and the loaded score disagree on a document the Python oracle accepts "
+                              "(model drift or loader change)",
+                              {"dir": "import", "doc": doc, "loader": loader, "clauses": ["model"], "text": text})
+        ctx.log("coq: meirun stream done")
         if ppq_cases:
             f2 = ctx.coq_failing("ppq", "From PV Require Import Model.C19.", "", ppq_cases,
                                  "fun c => match c with (units, evs, divs) => Z.eqb (find_ppq units evs) divs end", shard=300)
             ctx.obligation("correspondence (informational, not a property observable): Model.C19.find_ppq = the ppq inferred by load_mei on %d documents"
                            % len(ppq_cases), not f2, f2[:5])
+        ctx.log("coq: ppq stream done")
+        if prun_cases:
+            f7 = ctx.coq_failing("partrun", "From PV Require Import Model.C19 Model.C19_kern.", "", prun_cases, "check_part_run", shard=70 if quick else 100)
+            ctx.obligation("correspondence: Model.C19_kern.part_run (element_parsing: position from the order within the spine, "
+                           "ceil(4 / value * divs), the table document line -> position shared by the spines of one part, a barline of a "
+                           "later spine jumping to the start of the measure with its number) = (start, end) ticks of every element of every "
+                           "sub-spine and the measure starts, on %d loaded kern parts" % len(prun_cases), not f7, f7[:5])
+            for i in f7[:3]:
+                doc, loader, text = prun_docs[i]
+                ctx.violation("Coq model of the kern timeline placement (element_parsing, line2pos) and the loaded score disagree on a "
+                              "document the Python oracle accepts (model drift or loader change)",
+                              {"dir": "import", "doc": doc, "loader": loader, "clauses": ["model"], "text": text})
+        ctx.log("coq: partrun stream done")
         if spine_cases:
             f4 = ctx.coq_failing("spine", "From PV Require Import Model.C19.", "", spine_cases, "check_spine", shard=150)
             ctx.obligation("correspondence: Model.C19.spine_voices (sub-spine count of parse_by_voice over the '*^' / '*v' cells of each spine) "
@@ -1935,6 +2370,12 @@ def run(ctx):
     ctx.log("import correspondence evaluated in Coq")
     run_export(ctx, n_exp, ok)
     ctx.log("export direction done")
+    run_reexport(ctx, {"mei": 35 if quick else 600, "kern": 14 if quick else 170})
+    ctx.log("re-export direction done")
+    run_tokens(ctx, [t for d_, l_, t in coq_docs if d_["fmt"] == "kern"], 350 if quick else 4500, 90 if quick else 2000, ok)
+    ctx.log("kern token probes done")
+    run_dispatch(ctx, 120 if quick else 3000, ok)
+    ctx.log("dispatch by extension done")
     # ---- dispatch by extension (negative side): an unknown extension is rejected, not guessed
     import partitura as pt
     p = os.path.join(work_dir(), "x.c19unknown")
@@ -2021,6 +2462,348 @@ def run_export(ctx, n, ok):
         for i in fs_[:3]:
             ctx.violation("staff of note %s after save_mei/load: the model's resolution of the exported attributes disagrees with the loaded staff" % sinfo[i][1],
                           {"dir": "export", "fmt": "mei", "doc": sinfo[i][0], "clauses": ["model", "staff"]})
+
+
+# --------------------------------------------------------------------------
+# dispatch by extension (O5): names drawn from a grammar of stems and extensions; the reader that ran is observed by
+# its outcome on two tiny files of known content written under the same name (one MEI, one kern)
+
+TINY_MEI = ('<?xml version="1.0" encoding="UTF-8"?>\n<mei xmlns="http://www.music-encoding.org/ns/mei" meiversion="4.0.0"><meiHead><fileDesc>'
+            '<titleStmt><title>d</title></titleStmt><pubStmt/></fileDesc></meiHead><music><body><mdiv xml:id="m"><score xml:id="s"><scoreDef xml:id="sd">'
+            '<staffGrp xml:id="sg"><staffDef xml:id="P1" n="1" lines="5" clef.shape="G" clef.line="2" meter.count="4" meter.unit="4" key.sig="0"/>'
+            '</staffGrp></scoreDef><section xml:id="sec"><measure xml:id="m1" n="1"><staff xml:id="st" n="1"><layer xml:id="l" n="1">'
+            '<note xml:id="n1" dur="4" pname="e" oct="4"/></layer></staff></measure></section></score></mdiv></body></music></mei>\n')
+TINY_KERN = "**kern\n*clefG2\n*M4/4\n=1\n4e\n==\n*-\n"
+DISPATCH_EXTS = [".mei", ".mei", ".krn", ".kern", ".MEI", ".Mei", ".KRN", ".Kern", ".xml", ".musicxml", ".mxl", ".mid", ".midi", ".match",
+                 ".txt", ".meix", ".me", ".kr", ".krnn", "", "", ".mei~", ".json", ".md", ".mscz"]
+DISPATCH_INNER = [".mei", ".krn", ".kern", ".xml", ".mid", ".v2", ".1", ".final", ".MEI", ".match"]
+
+
+def gen_dispatch_name(rng):
+    """Relative path below the work directory: 0-2 directories (possibly with dots / another reader's extension),
+    a stem (possibly empty = hidden file, only dots, several dots, inner extensions of other readers), an extension."""
+    def word():
+        return "".join(rng.choice("abcxyz019_-") for _ in range(rng.randint(1, 4)))
+    parts = []
+    for _ in range(rng.choice([0, 0, 1, 1, 2])):
+        d = word()
+        if rng.random() < 0.5:
+            d += rng.choice(DISPATCH_INNER)
+        if rng.random() < 0.15:
+            d = "." + d
+        parts.append(d)
+    r = rng.random()
+    if r < 0.1:
+        stem = ""                      # ".mei": a hidden file without extension
+    elif r < 0.17:
+        stem = "." * rng.randint(1, 3)  # "...krn": only dots before the last dot
+    else:
+        stem = ("." * rng.choice([0, 0, 0, 1, 2])) + word()
+        for _ in range(rng.choice([0, 0, 1, 1, 2])):
+            stem += rng.choice(DISPATCH_INNER) if rng.random() < 0.7 else "." + word()
+        if rng.random() < 0.1:
+            stem += "."                # "doc..mei"
+    return "/".join(parts + [stem + rng.choice(DISPATCH_EXTS)])
+
+
+def observe_dispatch(rel, k=0):
+    """0 NotSupportedFormatError for both contents | 1 the MEI content loads to its note and the kern content does not |
+    2 the kern content loads to its note and the MEI content does not | 3 neither loads to its note (another reader ran) |
+    4 both do (ambiguous)."""
+    import partitura as pt
+    res = []
+    for sub, content in (("dm", TINY_MEI), ("dk", TINY_KERN)):
+        path = os.path.join(work_dir(), "dispatch", "%s%d" % (sub, k), rel)
+        os.makedirs(os.path.dirname(path), exist_ok=True)
+        with open(path, "w") as f:
+            f.write(content)
+        try:
+            import contextlib
+            import io
+            with contextlib.redirect_stdout(io.StringIO()):    # the match reader prints every line it cannot parse
+                sc = pt.load_score(path)
+            notes = [(n.step.upper(), n.octave, n.id) for q in sc.parts for n in q.notes]
+            ok = len(notes) == 1 and notes[0][:2] == ("E", 4)
+            # the MEI reader keeps the xml:id; the kern reader invents ids: tells the two readers apart should one
+            # of them ever accept the other's content
+            res.append(("ok" if ok else "other", notes[0][2] if ok else None))
+        except Exception as ex:
+            res.append(("unsupported" if type(ex).__name__ == "NotSupportedFormatError" else "other", None))
+    (m, mid), (k, _) = res
+    if m == "unsupported" and k == "unsupported":
+        return 0, path
+    if m == "ok" and mid == "n1" and k != "ok":
+        return 1, path
+    if k == "ok" and m != "ok":
+        return 2, path
+    if m == "ok" and k == "ok":
+        return 4, path
+    return 3, path
+
+
+def run_dispatch(ctx, n, ok):
+    cases, names = [], []
+    for i in range(n):
+        rel = gen_dispatch_name(ctx.rng)
+        if rel.split("/")[-1] in ("", ".", ".."):
+            continue
+        ob, path = observe_dispatch(rel, i)
+        ctx.evaluations += 1
+        ctx.count("dispatch:observed_class_%d" % ob)
+        base = rel.split("/")[-1]
+        if base.count(".") > 1:
+            ctx.count("dispatch:several_dots_in_the_name")
+        if base.startswith("."):
+            ctx.count("dispatch:name_starts_with_a_dot")
+        if "." in "/".join(rel.split("/")[:-1]):
+            ctx.count("dispatch:dot_in_a_directory")
+        if base != base.lower():
+            ctx.count("dispatch:upper_case_extension")
+        # direct oracle: the reader is decided by the extension after the last dot of the name (case-insensitive);
+        # a name that is only an extension (".mei") or has only dots before it has none
+        stem, dot, ext = base.rpartition(".")
+        ext = (dot + ext).lower() if (dot and stem.strip(".")) else ""
+        want = 1 if ext == ".mei" else 2 if ext in (".krn", ".kern") else 0 if ob == 0 else 3   # other names: not the MEI / kern reader
+        if ob != want:
+            ctx.violation("load_score(%r): %s, but the extension %r selects %s"
+                          % (rel, ["rejected the file (NotSupportedFormatError)", "ran the MEI reader", "ran the kern reader", "ran another reader",
+                                   "loaded both an MEI and a kern content"][ob], ext,
+                             ["no reader", "the MEI reader", "the kern reader", "neither the MEI nor the kern reader"][want]),
+                          {"dir": "dispatch", "name": rel, "observed": ob, "expected": want})
+            continue
+        ctx.nontrivial("dispatch" + rel)
+        cases.append(ctuple([core.cstr(path), cz(ob)]))
+        names.append(rel)
+    if ok and cases:
+        f6 = ctx.coq_failing("dispatch", "From PV Require Import Model.C19_disp.", "", cases, "check_dispatch", shard=400)
+        ctx.obligation("correspondence: Model.C19_disp.load_score_reader (posixpath.splitext: last dot of the last path component unless only dots "
+                       "precede it, lower-cased, the if/elif chain of load_score) = the reader load_score ran, observed by the outcome on an MEI "
+                       "and a kern file of known content written under %d generated names" % len(cases), not f6, [names[i] for i in f6[:5]])
+        for i in f6[:3]:
+            ctx.violation("load_score(%r): the reader that ran differs from the model's dispatch" % names[i],
+                          {"dir": "dispatch", "name": names[i], "clauses": ["model"]})
+
+
+# --------------------------------------------------------------------------
+# kern tokens: (1) every distinct note token is probed through load_kern in a tiny file of its own and compared with
+# Model.C19_kern.parse_note_token; (2) the tokens save_kern writes for notes of known attributes are compared with
+# Model.C19_kern.kern_write_token
+
+PROBE_PRE = ["", "", "", "[", "(", "([", "{", "&", "<"]
+PROBE_POST = ["", "", "", "]", "_", "L", "J", "LL", "JJ", "K", "k", ";", ")", "'", "^", "~", "/", "\\", "q", "qq", "yy", "X", "x", "i", "v", "u",
+              "m", "t", "T", "S", "O", "z", "p", "P", "M", "W", "w", "$", "R", "_L", "];", "J)", "/L", "q/"]
+# note values and their 3:2, 5:4, 7:4 subdivisions (the supported subset; other reciprocal values make the loader's float
+# arithmetic -- isclose, ceil -- inexact)
+PROBE_RECIP = [1, 2, 4, 8, 16, 32, 64, 128, 256, 3, 6, 12, 24, 48, 96, 5, 10, 20, 40, 80, 7, 14, 28, 56, 112]
+PROBE_ACC = ["", "", "", "#", "##", "-", "--", "n", "###", "n#", "n-", "#n", "-n", "nn"]
+
+
+def gen_probe_token(rng):
+    pre, post = rng.choice(PROBE_PRE), rng.choice(PROBE_POST)
+    dur = "%d%s" % (rng.choice(PROBE_RECIP), "." * rng.choice([0, 0, 0, 1, 1, 2, 3]))
+    if rng.random() < 0.12:
+        body = "r" * rng.choice([1, 1, 2])
+        post = post.replace("q", "")     # a "grace rest" is no notation
+    else:
+        step = rng.choice("cdefgab")
+        n = rng.choice([1, 1, 2, 2, 3, 4, 5])
+        body = (step if rng.random() < 0.5 else step.upper()) * n + rng.choice(PROBE_ACC)
+    r = rng.random()
+    if r < 0.8:
+        return pre + dur + body + post
+    if r < 0.95:
+        return pre + body + dur + post          # humdrum does not fix the order of duration and pitch
+    return pre + body + post                    # no duration at all (grace notes): the loader assumes "8"
+
+
+def probe_token(tok):
+    """What load_kern makes of one note token: a file holding a quarter c and the token; returns the Coq term of the
+    observation, or None when the loader rejects the file."""
+    import partitura as pt
+    import partitura.score as S
+    tied = "]" in tok or "_" in tok
+    path = os.path.join(work_dir(), "probe.krn")
+    with open(path, "w") as f:
+        f.write("**kern\n*M4/4\n=1\n%s\n%s\n*-\n" % ("[4c" if tied else "4c", tok))
+    try:
+        sc = pt.load_kern(path)
+    except Exception:
+        return None
+    part = sc.parts[0]
+    dv = int(part._quarter_durations[0])
+    els = [n for n in part.iter_all(S.GenericNote, include_subclasses=True) if int(n.start.t) == dv]
+    if len(els) != 1:
+        return None
+    n = els[0]
+    rest, grace = isinstance(n, S.Rest), isinstance(n, S.GraceNote)
+    sd = n.symbolic_duration or {}
+    if sd.get("type") not in SYM_VALUE or F(SYM_VALUE[sd["type"]]).denominator != 1:
+        return None
+    alter = getattr(n, "alter", None)
+    return ctuple([core.cstr(tok), ctuple([cbool(rest), cbool(grace), cz(0 if rest else STEPS.index(n.step.upper())),
+                                           "(@None Z)" if alter is None else "(Some %s)" % cz(int(alter)), cz(0 if rest else n.octave),
+                                           cq(F(int(n.end.t - n.start.t), dv)), cbool(getattr(n, "tie_prev", None) is not None),
+                                           ctuple([cz(int(SYM_VALUE[sd["type"]])), cz(int(sd.get("dots") or 0)), cz(int(sd.get("actual_notes") or 0)),
+                                                   cz(int(sd.get("normal_notes") or 0))])])])
+
+
+def written_tokens(notes):
+    """notes: [(step index, alter or None, octave, value, dots, actual, normal, tie to the next note?)] written one after
+    the other in one voice of a Part; returns the tokens save_kern writes for them (None: the writer raised)."""
+    import partitura.score as S
+    from partitura.io.exportkern import save_kern
+    durs = [den_dur(v, d, (a, n) if a else None) for (_, _, _, v, d, a, n, _) in notes]
+    divs = 1
+    for q in durs:
+        divs = divs * q.denominator // math.gcd(divs, q.denominator)
+    part = S.Part("P1", "tokens", quarter_duration=divs)
+    part.add(S.TimeSignature(4, 4), 0)
+    part.add(S.Clef(1, "G", 2, 0), 0)
+    t = 0
+    prev = None
+    for i, ((st, alter, octv, v, d, a, n, tie), q) in enumerate(zip(notes, durs)):
+        sd = {"type": SYM[v]}
+        if d:
+            sd["dots"] = d
+        if a:
+            sd["actual_notes"], sd["normal_notes"] = a, n
+        o = S.Note(step=STEPS[st], octave=octv, alter=alter, id="w%d" % i, voice=1, staff=1, symbolic_duration=sd)
+        part.add(o, t, t + int(q * divs))
+        part.add(S.Measure(number=i + 1), t, t + int(q * divs))   # one measure per note: nothing for fill_rests to fill
+        if prev is not None:
+            prev.tie_next, o.tie_prev = o, prev
+        prev = o if tie else None
+        t += int(q * divs)
+    try:
+        data = save_kern(part)
+    except Exception:
+        return None
+    toks = [c for row in data for c in row if c and c != "." and c[0] not in "*=!"]
+    return toks[:len(notes)] if len(toks) >= len(notes) else None
+
+
+def run_tokens(ctx, texts, n_probe, n_written, ok):
+    import re
+    seen = set()
+    for text in texts:
+        for line in text.split("\n"):
+            for cell in line.split("\t"):
+                if cell and cell != "." and cell[0] not in "*=!":
+                    seen.update(cell.split(" "))
+    toks = sorted(seen)
+    ctx.rng.shuffle(toks)
+    toks = toks[:n_probe // 2]
+    ctx.count("tokens:from_generated_documents", len(toks))
+    while len(toks) < n_probe:
+        toks.append(gen_probe_token(ctx.rng))
+    cases, names = [], []
+    for tok in sorted(set(toks)):
+        c = probe_token(tok)
+        ctx.evaluations += 1
+        if c is None:
+            ctx.count("tokens:rejected_by_load_kern")
+            continue
+        for k_, rx in (("tokens:tie_mark", r"[\[\]_]"), ("tokens:dots", r"\."), ("tokens:grace", "q"), ("tokens:rest", "r"), ("tokens:accidental", "[#n-]"),
+                       ("tokens:pitch_before_duration", r"^[^0-9]*[a-gA-G][^0-9]*[0-9]")):
+            if re.search(rx, tok):
+                ctx.count(k_)
+        ctx.nontrivial("token" + tok)
+        cases.append(c)
+        names.append(tok)
+    if ok and cases:
+        f8 = ctx.coq_failing("token", "From PV Require Import Model.C19 Model.C19_kern.", "", cases, "check_token", shard=400)
+        ctx.obligation("correspondence: Model.C19_kern.parse_note_token / token_quarters / kern_symbolic (the regular-expression searches of "
+                       "meta_note_line, _process_kern_pitch, _process_kern_duration as functions on strings) = rest / grace / step / alter / "
+                       "octave / duration / tie to the previous note / written value load_kern gives the token, on %d distinct note tokens "
+                       "each probed in a file of its own" % len(cases), not f8, [names[i] for i in f8[:8]])
+        for i in f8[:3]:
+            ctx.violation("kern token %r: what load_kern makes of it differs from the model's reading of the token" % names[i],
+                          {"dir": "token", "token": names[i], "clauses": ["model"]})
+    # ---- the writer's tokens
+    wcases, wnames = [], []
+    alters = [None, None, 0, 1, 2, -1, -2]
+    done = 0
+    while done < n_written:
+        notes = []
+        for _ in range(30):
+            v = ctx.rng.choice([1, 2, 4, 4, 8, 8, 16, 32, 64, 128, 256])
+            a, n = ctx.rng.choice([(0, 0), (0, 0), (3, 2), (5, 4), (6, 4), (7, 4)])
+            if a and (v * a) % n:
+                a, n = 0, 0
+            notes.append([ctx.rng.randrange(7), ctx.rng.choice(alters), ctx.rng.choice([0, 1, 2, 3, 3, 4, 4, 5, 6, 7, 8, 9]), v,
+                          ctx.rng.choice([0, 0, 0, 1, 2, 3]), a, n, False])
+        for i in range(len(notes) - 1):     # ties: the next note takes the pitch
+            if ctx.rng.random() < 0.25:
+                notes[i][7] = True
+                notes[i + 1][:3] = notes[i][:3]
+        toks = written_tokens([tuple(x) for x in notes])
+        ctx.evaluations += 1
+        done += len(notes)
+        if toks is None:
+            ctx.violation("save_kern raised (or wrote fewer tokens than notes) on a one-voice part of 30 notes of plain attributes",
+                          {"dir": "written", "notes": notes})
+            continue
+        for i, (nt, tok) in enumerate(zip(notes, toks)):
+            tprev = i > 0 and notes[i - 1][7]
+            wcases.append(ctuple([ctuple([cz(nt[0]), "(@None Z)" if nt[1] is None else "(Some %s)" % cz(nt[1]), cz(nt[2]), cz(nt[3]), cz(nt[4]),
+                                          cz(nt[5]), cz(nt[6]), cbool(tprev), cbool(nt[7])]), core.cstr(tok)]))
+            wnames.append((nt, tprev, tok))
+            ctx.nontrivial("written" + tok)
+    ctx.count("tokens:written_by_save_kern", len(wcases))
+    if ok and wcases:
+        f9 = ctx.coq_failing("written", "From PV Require Import Model.C19 Model.C19_kern.", "", wcases, "check_written", shard=600)
+        ctx.obligation("correspondence: Model.C19_kern.kern_write_token (pitch_to_kern, sym_dur_to_kern, markings_to_kern) = the token save_kern "
+                       "writes, on %d notes of drawn step / accidental / octave 0-9 / value / dots / tuplet ratio / ties" % len(wcases),
+                       not f9, [wnames[i] for i in f9[:5]])
+        for i in f9[:3]:
+            ctx.violation("save_kern wrote %r for the note %r (tie from the previous note: %s): the model's token differs"
+                          % (wnames[i][2], wnames[i][0], wnames[i][1]), {"dir": "written", "note": wnames[i][0], "token": wnames[i][2], "clauses": ["model"]})
+
+
+def run_reexport(ctx, n):
+    """document -> load_score -> save_mei / save_kern of every loaded part -> load_score: the parts the two loaders
+    return are parts the writers must export (the written value comes from the symbolic duration the LOADER gave the
+    note).  All in this process, after the import and export streams (no module state is reset between documents)."""
+    for fmt in ("mei", "kern"):
+        nv = 0
+        for i in range(n[fmt]):
+            w = dict(REEXPORT_W)
+            r = ctx.rng.random()
+            if r < 0.3:      # tuplet values first and often, plain values of the same base after them
+                w.update({"tuplet": 0.55, "dots": 0.15})
+            elif r < 0.4:
+                w.update({"tuplet": 0.0})
+            if fmt == "kern":
+                w["grace"] = 0.0     # known finding C19-K3
+            doc = gen_doc(ctx.rng, fmt, w, nmeas=ctx.rng.randint(1, 3))
+            b = reexport_bad(doc, "reexp")
+            ctx.evaluations += 1
+            ctx.count("reexport:%s" % fmt)
+            fl = [e for m in doc["measures"] for st in m["content"] for layer in st for e in flat(layer)]
+            bases = {e["v"] for e in fl if e.get("t")}
+            if any(not e.get("t") and e.get("v") in bases for e in fl):
+                ctx.count("reexport:%s:tuplet_and_plain_value_of_the_same_base" % fmt)
+            if b is None:
+                ctx.nontrivial("reexport" + json.dumps(doc, sort_keys=True, default=str))
+                continue
+            if "OverflowError" in b[1].get("error", "") and "int32" in b[1].get("error", ""):
+                # tick positions beyond int32 (huge lcm of the kern divisions): Part.note_array, not the writers
+                ctx.count("reexport:%s:ticks_beyond_int32(skipped)" % fmt)
+                continue
+            small = doc
+            if nv < 3:
+                try:
+                    small = shrink_import(doc, None, None, "reexp_shrink", fails=lambda d: (lambda x: x is not None and "int32" not in x[1].get("error", ""))(reexport_bad(d, "reexp_shrink")))
+                except Exception:
+                    small = doc
+            b2 = reexport_bad(small, "reexp")
+            if b2 is None:
+                small, b2 = doc, b
+            res = ctx.violation(b2[0][:700], dict({"dir": "reexport", "fmt": fmt, "doc": small}, **b2[1]))
+            if res != "known":
+                nv += 1
+            if nv >= 6:
+                break
 
 
 def coptz(x):
@@ -2216,6 +2999,29 @@ def replay(obj):
                 print("   DIFFERENT: %s before %s after %s" % (i_ or "", fmt_xrow(e_), [fmt_xrow(x) for x in (g_ or [])]))
         else:
             print(res[1])
+    elif r.get("dir") == "reexport":
+        res = reexport_roundtrip(r["doc"], "replay")
+        print("---- document -> load_score -> save -> load_score:", res[0])
+        if res[0] == "ok":
+            for pi, rows, got, text in res[1]:
+                print("---- part %d exported as:\n%s" % (pi, text))
+                fm = r["doc"]["fmt"] if (r["doc"]["fmt"] == "mei" and all(not k.startswith("x") for k in rows)) else "kern"
+                bad = export_diff(fm, rows, got)
+                print("---- every note kept onset, duration, pitch and staff:", "yes" if not bad else "NO")
+                for i_, e_, g_ in bad:
+                    print("   DIFFERENT: %s before %s after %s" % (i_ or "", fmt_xrow(e_), [fmt_xrow(x) for x in (g_ or [])]))
+        else:
+            print(res[1])
+    elif r.get("dir") == "token":
+        print("load_kern on a file holding a quarter c and the token %r gives (token, (rest, grace, step, alter, octave, quarters, tied to the "
+              "previous note, (note value, dots, actual, normal))):\n  %s" % (r["token"], probe_token(r["token"])))
+    elif r.get("dir") == "written":
+        print(json.dumps(r, indent=1, default=str))
+        if r.get("note"):
+            print("save_kern writes:", written_tokens([tuple(r["note"])]))
     elif r.get("dir") == "dispatch":
         print(json.dumps(r, indent=1, default=str))
+        if r.get("name"):
+            ob, path = observe_dispatch(r["name"])
+            print("load_score on %s: observed class %d (0 rejected, 1 MEI reader, 2 kern reader, 3 another reader, 4 both contents load)" % (path, ob))
     return 0
